@@ -54,6 +54,8 @@ func pendingUnbondings(st *State, k int) {
 	case 4: // two undelegations from the same validator and denom in one block share the bucket
 		q2 := nd.IntRange("q2", "1", Pow30)
 		InstallUnbonding(st.E, 0, c1, []Entry{{0, 0, q1}, {0, 0, q2}})
+	case 5: // the bucket holds only an entry of ANOTHER validator: the index of validator 0 does not exist yet
+		InstallUnbonding(st.E, 0, c1, []Entry{{1, 0, q1}})
 	case 3:
 		q2 := nd.IntRange("q2", "1", Pow30)
 		c2 := nd.TimeRange("c2", TLo, THi)
@@ -108,10 +110,17 @@ func H_C01_step_endblock() {
 	id := "C01.step.endblock"
 	ps := shapeActor("shape")
 	pk := nd.Choice("pending", 4)
-	st := Build(ps, Opts{TakeRate: true, Params: true})
+	o := Opts{TakeRate: true, Params: true}
+	if nd.Choice("second", 2) == 1 {
+		// a second take-rate asset that sorts after the first (its total may be a dust position of 1 unit)
+		o.NDenoms = 2
+		ps = append(ps, Pos{1, 0, 1})
+	}
+	st := Build(ps, o)
 	pendingUnbondings(st, pk)
 	e := st.E
 	pre := Surplus(e, Denoms[0])
+	pre1 := Surplus(e, Denoms[1])
 	t1 := nd.TimeRange("t1", TLo, THi)
 	nd.Assume(!t1.Before(st.T0))
 	boundIntervals(st, t1, 4)
@@ -124,4 +133,7 @@ func H_C01_step_endblock() {
 	post := Surplus(e, Denoms[0])
 	nd.ObserveInt("surplus_post", post)
 	nd.Assert(id, post.Equal(pre))
+	if o.NDenoms == 2 {
+		nd.Assert(id, Surplus(e, Denoms[1]).Equal(pre1))
+	}
 }
